@@ -221,6 +221,10 @@ class ProgramModel:
                     return k, n
         return None, None
 
+    def helper_finder(self, cn):
+        """name -> FunctionDef of a method of cn (along its MRO), for the helper-inlining views of astutil"""
+        return (lambda name: self.find_method(cn, name)[1]) if cn in self.classes else (lambda name: None)
+
     def own_methods(self, cn):
         return [n for n in self.classes[cn].node.body if isinstance(n, ast.FunctionDef)]
 
